@@ -45,7 +45,7 @@ Refresh(pp, AA) ==
 
 TInit == \E i \in {j \in 1..Len(Trace) : Trace[j].t = "reset"} :
             /\ l = i + 1 /\ rd = Trace[i].round /\ pers = Trace[i].pers /\ ended = FALSE
-            /\ A = AInit /\ used = {} /\ pend = [c \in Clients |-> NoPend]
+            /\ A = AInit({Trace[i].init[j] : j \in 1..Len(Trace[i].init)}, 2) /\ used = {} /\ pend = [c \in Clients |-> NoPend]
 
 TInvoke == /\ Trace[l].t = "inv"
            /\ LET e == Trace[l]
